@@ -111,6 +111,28 @@ theorem encode_limit_zero_is_error (h : H) : encode h (some 0) = none := by
   · omega
   · rfl
 
+/-- the loop of `encode` keeps the encoding of what it holds within the limit -/
+theorem takeFitting_fits (l : Nat) (acc xs : List (Nat × Bytes)) (h : (encItems acc).length ≤ l) :
+    (encItems (takeFitting l acc xs)).length ≤ l := by
+  induction xs generalizing acc with
+  | nil => exact h
+  | cons x xs ih =>
+    unfold takeFitting
+    split
+    · exact h
+    · apply ih; omega
+
+/-- **Encoding under a limit never fails once the empty list fits** (one byte): however many heads
+there are, the newest that fit are kept and the rest dropped. -/
+theorem encode_ok_of_pos_limit (h : H) (l : Nat) (hl : 1 ≤ l) : (encode h (some l)).isSome = true := by
+  unfold encode
+  simp only
+  have h0 : (encItems []).length ≤ l := by
+    have : (encItems []).length = 1 := by decide
+    omega
+  have := takeFitting_fits l [] (sortTA (h.map (fun (a, ts) => (ts, a)))).reverse h0
+  simp [this]
+
 /-- what is kept under a limit is a prefix of the newest-first list … -/
 theorem takeFitting_prefix (l : Nat) (acc xs : List (Nat × Bytes)) :
     ∃ k, takeFitting l acc xs = acc ++ xs.take k ∧
